@@ -422,6 +422,8 @@ def oracle(c, o):
     """Returns list of (what, tags)."""
     bad = []
     b = c["body"]
+    if o["gerr"] is not None and o["gerr"][0] == "Timeout":
+        return bad            # machine overload while compiling the grammar: no observation
     want_err = doc_grammar_error(b)
     got_err = classify_gerr(o["gerr"])
     if want_err != got_err:
@@ -536,7 +538,7 @@ def model_matches(c, o, mv):
     return True
 
 
-def run_cases(chk, cases, tag):
+def run_cases(chk, cases, tag, shard=120):
     chunks = [cases[i::core.NPROC] for i in range(core.NPROC)]
     chunks = [ch for ch in chunks if ch]
     outs = core.run_impl_parallel("c02", [{"cases": [{"grammar": c["grammar"], "auto_init": c["auto_init"], "inputs": c["inputs"]} for c in ch]} for ch in chunks])
@@ -544,7 +546,7 @@ def run_cases(chk, cases, tag):
     for ch, o in zip(chunks, outs):
         for c, x in zip(ch, o):
             res[id(c)] = x
-    vals, errs = core.coq_eval(tag, IMPORTS, [coq_case(c, res[id(c)]) for c in cases], shard=120)
+    vals, errs = core.coq_eval(tag, IMPORTS, [coq_case(c, res[id(c)]) for c in cases], shard=shard)
     disagreements, failures = [], []
     if errs:
         disagreements.append({"case": "coq evaluation", "model": errs[:2]})
@@ -568,6 +570,9 @@ def run_cases(chk, cases, tag):
                     chk.stat("accepted input whose first value of some attribute is falsy")
                 if any(len([1 for at, _, _ in run["trace"] if at == n]) >= 2 for n in first):
                     chk.stat("accepted input with >=2 assignment events for one attribute")
+        if o["gerr"] is not None and o["gerr"][0] == "Timeout":
+            chk.stat("grammar compile timed out (skipped)")
+            continue
         if mv is not None and not model_matches(c, o, mv):
             disagreements.append({"case": c, "impl": impl_canon(c, o), "model": mv, "impl_raw": o})
         for what, tags in oracle(c, o):
@@ -618,12 +623,14 @@ def run(chk):
     if chk.thorough:
         # exhaustive multiplicity table for small bodies (validation of the model against the code, not the proof)
         small = []
-        for nodes in range(2, 7):
+        for nodes in range(2, 6):
             for b in enum_bodies(nodes, 2):
                 if has_asg(b):
                     small.append(mk_case(b, []))
+        six = [b for b in enum_bodies(6, 2) if has_asg(b)]
+        small += [mk_case(b, []) for b in chk.rng.split("six").sample(six, 2500)]
         chk.stat("enumerated small bodies", len(small))
-        f2, d2 = run_cases(chk, small, "C02e")
+        f2, d2 = run_cases(chk, small, "C02e", shard=400)
         failures += f2
         disagreements += d2
     chk.cov["rule"] = ("one-rule grammars whose body is a random AST (depth <= 3) of sequence, ordered choice, optional, * / + repetition (with and "
@@ -632,7 +639,7 @@ def run(chk):
                        "the body (values distinct, 0 and '' occurring as first values) plus 2 token-level mutations; the multiplicities, the "
                        "assignment events of the real parse tree, the attribute values or the error are compared with Model/Mult.v; "
                        "non-trivial = some attribute is assigned at least twice in the body; distinct by (grammar, auto_init, inputs)"
-                       + ("; thorough adds every body of 2-6 nodes over two attributes (=, one +=, ?, *, binary sequence/choice, ternary choice) for the multiplicity table" if chk.thorough else ""))
+                       + ("; thorough adds every body of 2-5 nodes over two attributes (=, one +=, ?, *, binary sequence/choice, ternary choice) and a sample of 2500 of the 6-node bodies, for the multiplicity table" if chk.thorough else ""))
     chk.assumptions += [
         "translator mult_tr.py (ast shape match of const.py, metamodel.py, lang.py visit_assignment/_update_attr_multiplicities, model.py assignment handler)",
         "the walk is modelled per attribute (set membership and the attribute's mult cell); independence of distinct attributes is validated by the correspondence",
@@ -647,6 +654,10 @@ def replay(rep):
     if not isinstance(c, dict) or "grammar" not in c:
         print(json.dumps(rep, indent=1)[:4000])
         return 0
+    try:
+        mult_tr.translate()          # the model is evaluated against the facts of the current source
+    except Exception as ex:
+        print("translator-failed:", ex)
     o = core.run_impl("c02", {"cases": [{"grammar": c["grammar"], "auto_init": c["auto_init"], "inputs": c["inputs"]}]})[0]
     vals, errs = core.coq_eval("C02r", IMPORTS, [coq_case(c, o)])
     print("grammar:\n" + c["grammar"])
